@@ -280,6 +280,63 @@ fn scan() {
     }
 }
 
+/// An item that equals the placeholder object given to new() is an item like any other: the signature of a non-empty
+/// weighted set must not depend on the placeholder (every position is filled).  Exact: for T labellings of two shapes
+/// and m in {2, 8, 33} each sketcher is built twice, once with the first item of the set as its placeholder and once
+/// with an identifier outside the set; the two signatures must be identical.  (A statistical version with one fixed
+/// identifier in every labelling would not be an expectation over fresh identifiers - see DESIGN 9.3.)
+fn placeholder_is_an_item(t: u64, base: u64) -> (u64, Option<String>) {
+    use fnv::FnvHasher;
+    use indexmap::IndexMap;
+    use probminhash::probminhasher::{ProbMinHash2, ProbMinHash3, ProbMinHash3a, ProbMinHash3aSha};
+    let shapes: [&[f64]; 3] = [&[1., 3., 2., 1., 4.], &[10., 1.], &[0.5]];
+    let mut n = 0u64;
+    for &m in &[2usize, 8, 33] {
+        for w in shapes.iter() {
+            for tt in 0..t {
+                let o = base + tt * 8;
+                let items: Vec<(u64, f64)> = w.iter().enumerate().map(|(i, x)| (o + i as u64, *x)).collect();
+                let outside = o + 7;
+                let r = crate::common::guarded_mut(|| -> Option<String> {
+                    let mut sigs: Vec<(&str, Vec<u64>, Vec<u64>)> = Vec::new();
+                    for ph in [items[0].0, outside] {
+                        let im: IndexMap<u64, f64> = items.iter().cloned().collect();
+                        let mut p2 = ProbMinHash2::<u64, FnvHasher>::new(m, ph);
+                        let mut p3 = ProbMinHash3::<u64, FnvHasher>::new(m, ph);
+                        for (k, x) in &items {
+                            p2.hash_item(*k, *x);
+                            p3.hash_item(*k, x);
+                        }
+                        let mut p3a = ProbMinHash3a::<u64, FnvHasher>::new(m, ph);
+                        p3a.hash_weigthed_idxmap(&im);
+                        let mut sha = ProbMinHash3aSha::<u64>::new(m, ph);
+                        sha.hash_weigthed_idxmap(&im);
+                        for (name, sg) in [("ProbMinHash2", p2.get_signature().clone()), ("ProbMinHash3", p3.get_signature().clone()), ("ProbMinHash3a", p3a.get_signature().clone()), ("ProbMinHash3aSha", sha.get_signature().clone())] {
+                            match sigs.iter_mut().find(|e| e.0 == name) {
+                                None => sigs.push((name, sg, Vec::new())),
+                                Some(e) => e.2 = sg,
+                            }
+                        }
+                    }
+                    for (name, a, b) in sigs {
+                        if a != b {
+                            return Some(format!("{} m={} weighted set {:?}: signature {:?} when the sketcher's placeholder object is the item {}, {:?} when it is {} (not in the set)", name, m, items, a, items[0].0, b, outside));
+                        }
+                    }
+                    None
+                });
+                n += 8;
+                match r {
+                    Ok(None) => {}
+                    Ok(Some(w)) => return (n, Some(w)),
+                    Err(p) => return (n, Some(format!("panic: {}", p))),
+                }
+            }
+        }
+    }
+    (n, None)
+}
+
 pub fn run(ctx: &Ctx) -> i32 {
     if std::env::var("VERIF_C01_SCAN").is_ok() {
         scan();
@@ -337,6 +394,14 @@ pub fn run(ctx: &Ctx) -> i32 {
     }
     let worst_ks = tdetails.iter().map(|d| d["worst_sqrtN_KS"].as_f64().unwrap_or(0.)).fold(0., f64::max);
     println!("C01 race tables: {} (variant,m) configurations, worst sqrt(N) KS = {:.2}", tdetails.len(), worst_ks);
+    // ---- an item equal to the placeholder object
+    {
+        let (n, bad) = placeholder_is_an_item(ctx.pick(2000, 50_000), base ^ 0x5151_0000_0000);
+        evals += n;
+        if let Some(w) = bad {
+            ctx.violation("placeholder-is-an-item", &w, json!({"kind": "placeholder-item"}));
+        }
+    }
     // ---- (2),(3) end-to-end partition
     let ms: Vec<usize> = ctx.pick(vec![2, 3, 8, 32], vec![2, 3, 4, 8, 32, 128]);
     let budget: u64 = ctx.pick(1_200_000, 40_000_000); // item insertions per configuration
@@ -353,8 +418,7 @@ pub fn run(ctx: &Ctx) -> i32 {
         .chain(shapes().into_iter().filter(|s| ["weights differing by 1e6", "common items, different weights", "nested: A inside B", "four items"].contains(&s.name)).map(|s| (usize::MAX, s, true)))
         // explicit zero-weight entries: container entry points of 3a / 3a-Sha (both), one size
         .chain(zero_shapes().into_iter().map(|s| (usize::MAX - 1, s, false)))
-        // an item whose identifier is the placeholder object of the sketcher
-        .chain(shapes().into_iter().filter(|s| ["common items, different weights", "four items"].contains(&s.name)).map(|s| (usize::MAX - 2, s, false)))
+        // (an item whose identifier is the sketcher's placeholder object is checked exactly, see placeholder_is_an_item)
     {
         SPLIT_MODE.store(split, std::sync::atomic::Ordering::Relaxed);
         let zero_mode = shi == usize::MAX - 1;
@@ -478,7 +542,7 @@ pub fn run(ctx: &Ctx) -> i32 {
     let coverage = json!({
         "evaluations": evals,
         "distinct_nontrivial": pdetails.len() as u64 + tdetails.len() as u64 * n_tab / 4,
-        "rule": "(1) for every identifier of a block of 2^17 (2^21) and m in {2,3,4,8,16,(64,256)}, variants 2, 3 (Fnv and no-op hashers) and 3a-Sha: the single-item sketch is computed by the real code and the per-position register (hook H2) law is compared with Exp(1/m) (variant 2) resp. Exp(ln(m/(m-1))) (variants 3) by KS, the position of the minimum with the uniform law by chi2; (2) 12 weighted-set shapes, 2 of them again with one item carrying the sketcher's placeholder identifier, 2 more whose absent items are explicit zero-weight entries (container entry points of 3a / 3a-Sha, m = 8), 4 of them again with every set fed in two calls (lighter half first; m = 8), plus 8 scaled ones (two shapes with all weights multiplied by 2^70, 2^-70, 1e15, 2^600; m=8, both entry points of every variant) (equal weights, identical, disjoint, nested, weights differing by 1e6, 1 vs 300, 200 pseudo-random weights, common items with different weights, sets of two, three and four items) x m in {2,3,8,32,(4,128)} x 6 variants (2, 3, 3a, 3a-Sha, and 2 / 3a with the no-op hasher) x alternating entry points (hash_item / IndexMap / HashMap) on T disjoint labellings: |mean - J_P| <= 6 se with J_P computed from its definition, MSE <= J_P(1-J_P)/m + 6 se; (3) on the same runs the share of positions won by each item of A against w/sum(w); exceedances are confirmed on a 4x larger fresh block; distinct = configurations + block elements (one per identifier, conservatively a quarter counted)",
+        "rule": "(1) for every identifier of a block of 2^17 (2^21) and m in {2,3,4,8,16,(64,256)}, variants 2, 3 (Fnv and no-op hashers) and 3a-Sha: the single-item sketch is computed by the real code and the per-position register (hook H2) law is compared with Exp(1/m) (variant 2) resp. Exp(ln(m/(m-1))) (variants 3) by KS, the position of the minimum with the uniform law by chi2; (1b) exact: 2000 (50000) labellings x 3 small sets x m in {2,8,33} x 4 variants sketched twice, with the set's first item and with an outside identifier as the sketcher's placeholder object: identical signatures; (2) 12 weighted-set shapes, 2 more whose absent items are explicit zero-weight entries (container entry points of 3a / 3a-Sha, m = 8), 4 of them again with every set fed in two calls (lighter half first; m = 8), plus 8 scaled ones (two shapes with all weights multiplied by 2^70, 2^-70, 1e15, 2^600; m=8, both entry points of every variant) (equal weights, identical, disjoint, nested, weights differing by 1e6, 1 vs 300, 200 pseudo-random weights, common items with different weights, sets of two, three and four items) x m in {2,3,8,32,(4,128)} x 6 variants (2, 3, 3a, 3a-Sha, and 2 / 3a with the no-op hasher) x alternating entry points (hash_item / IndexMap / HashMap) on T disjoint labellings: |mean - J_P| <= 6 se with J_P computed from its definition, MSE <= J_P(1-J_P)/m + 6 se; (3) on the same runs the share of positions won by each item of A against w/sum(w); exceedances are confirmed on a 4x larger fresh block; distinct = configurations + block elements (one per identifier, conservatively a quarter counted)",
         "samples": [
             {"table": {"variant": "P3", "m": 8, "item": base, "weight": 1.0}},
             {"shape": {"name": "weights differing by 1e6", "J_P": jp(&shapes()[4].roles)}},
